@@ -20,7 +20,7 @@ RULE = ("every Exception subclass of builtins and Pyro5.errors x argument tuples
 ASSUMPTIONS = ["classes that cannot be constructed from the value domain (e.g. ExceptionGroup) are counted as skipped",
                "StopIteration raised from an iterator's __next__ is the end of the stream, not an exception, so it is not used for the stream kind",
                "builtin slot attributes (OSError.filename, ImportError.name, ...) are neither args nor custom attributes"]
-REQUIRED_REACH = ["aftermath_cases", "concurrent_exceptions_checked", "exc_ok", "kind_plain", "kind_propget", "kind_propset", "kind_batch", "kind_stream", "unserialisable_ok", "unknown_class_ok", "next_call_ok", "codec_baseexc_ok", "handover_cases_ok", "big_batches"]
+REQUIRED_REACH = ["chained_exceptions_ok", "aftermath_cases", "concurrent_exceptions_checked", "exc_ok", "kind_plain", "kind_propget", "kind_propset", "kind_batch", "kind_stream", "unserialisable_ok", "unknown_class_ok", "next_call_ok", "codec_baseexc_ok", "handover_cases_ok", "big_batches"]
 SHARD_TIMEOUT = {"quick": 240, "thorough": 2800}
 
 ARG_SHAPES = [(), ("msg",), ("msg", 2), (2, "strerror"), ("é\x00x", [1, {"k": None}], 2 ** 70, 1.5), ({"d": [1, 2.5, "s"]},), (None,), ("a", "b", "c", "d", "e", "f")]
@@ -144,6 +144,20 @@ def make_service(P, registry):
         def raise_direct(self, clsname, args, attrs):
             # stateless (no 'armed' slot): safe for several clients at once
             raise build(registry[clsname], tuple(args), dict(attrs))
+
+        def raise_chained(self, clsname, args, attrs, causekind):
+            # `raise X from Y`: X is what the method raises (and what the caller is owed); Y - which may well be something no serializer
+            # can carry - is X's private business
+            exc = build(registry[clsname], tuple(args), dict(attrs))
+            if causekind == "lock":
+                cause = RuntimeError("low-level failure", threading.Lock())
+            elif causekind == "unicode":
+                cause = UnicodeDecodeError("utf-8", b"\xff\xfe", 0, 1, "invalid start byte")
+            elif causekind == "plain":
+                cause = KeyError("missing")
+            else:
+                cause = None
+            raise exc from cause
 
         def raise_shared(self):
             # one exception OBJECT for every caller (a cached failure, a module-level singleton error): several workers report it at once
@@ -309,6 +323,29 @@ def check_case(fx, p, armed_name, cls, clsname, args, attrs, sername, kind, rec,
             rec.count("next_call_comm_error")
     except Exception as x:
         rec.violation("next-call-fails", "call after remote %s failed: %r" % (clsname, x), pay)
+
+
+def chained_phase(fx, p, sername, registry, rec):
+    """exceptions raised with an explicit cause (`raise X from Y`): X arrives as X, whatever Y is made of"""
+    P = fx.P
+    for clsname in ("builtins.ValueError", "builtins.KeyError", "Pyro5.errors.NamingError", "builtins.RuntimeError"):
+        for causekind in ("lock", "unicode", "plain", "none"):
+            args, attrs = ["bad input", 7], {"field": "name", "codes": [1, 2]}
+            pay = {"chained": True, "class": clsname, "cause": causekind, "serializer": sername, "servertype": fx.servertype}
+            rec.case(("chained", clsname, causekind, sername, fx.servertype), nontrivial=True)
+            try:
+                p.raise_chained(clsname, args, attrs, causekind)
+                got = ("returned",)
+            except Exception as x:
+                tb = getattr(x, "_pyroTraceback", None)
+                got = (type(x), tuple(x.args), {k: v for k, v in vars(x).items() if not k.startswith("_pyro")}, bool(tb) and "raise_chained" in "".join(tb))
+            ok = got[0] is registry[clsname] and gen.deep_eq(list(got[1]), args) and gen.deep_eq(got[2], attrs) and got[3]
+            if not ok:
+                rec.violation("exception-class-differs" if got[0] is not registry[clsname] else "exception-content-differs",
+                              "%s: remote `raise %s(*%r) from <%s cause>` (attributes %r) reached the caller as %r (class, args, attributes, remote traceback present)" % (
+                                  sername, clsname, args, causekind, attrs, got), pay)
+                return
+            rec.count("chained_exceptions_ok")
 
 
 def check_unserialisable(fx, p, sername, extra, clsname, rec, token, registry):
@@ -559,6 +596,7 @@ def run_shard(shard, rec):
                 check_unserialisable(fx, p, sername, extra, clsname, rec, "tok%d" % tokn[0], registry)
         tokn[0] += 1
         check_unserialisable(fx, p, sername, "unknown-class", "checks.c07_exceptions.UnknownToReceiver", rec, "tok%d" % tokn[0], registry)
+        chained_phase(fx, p, sername, registry, rec)
         # aftermath: the same daemon, after it had to fall back for unserialisable exceptions of these classes, still delivers ordinary
         # exceptions of the very same classes unchanged (nothing learnt from one exception may be applied to the next)
         for clsname in ("builtins.ValueError", "builtins.KeyError", "Pyro5.errors.NamingError", "builtins.OSError"):
